@@ -10,6 +10,7 @@ reminders, key press, set value), seeded reply loss / delay / duplication, close
 every send, queue put/mark/pop (with the acting task), call start and return is logged
 in execution order and validated by TLC against AsyncEngine_Trace."""
 import asyncio
+import json
 
 from .. import env, tlc
 from ..engine import EngineScenario, merge, ms
@@ -34,7 +35,7 @@ def consts():
 
 
 def scenario(rng, kind):
-    snap = env.REPO + "/tests/snapshots/inXM-Pump 1 running-2020-12-08 19_54_01.snapshot" if kind == "gate-active" else None
+    snap = env.REPO + "/tests/snapshots/inXM-Pump 1 running-2020-12-08 19_54_01.snapshot" if kind in ("gate-active", "active-lossy") else None
     sc = EngineScenario(rng, rank=rng.choice(["stable", "perm", "reverse"]), snapshot=snap)
     try:
         s = sc.s
@@ -52,6 +53,13 @@ def scenario(rng, kind):
             if x < p_loss + p_late + p_dup:
                 return [0.01, rng.choice([0.02, 0.25, 2.0])]
             return [0.01]
+        if kind == "active-lossy":
+            # a pump is running: the ACTIVE table is installed, and its retry count / timeout / pause are the
+            # configured ones for this scenario (read below, after the switch); every reply is lost
+            from geckolib.config import GeckoConfig
+            if GeckoConfig.PING_FREQUENCY_IN_SECONDS > 10:
+                raise env.MachineryError("active configuration was not selected with a pump running")
+            p_loss, p_late, p_dup = 1.0, 0.0, 0.0
         if kind == "stall":
             sc.stalls(env.rng(f"c06-stall-{rng.random()}"))
         if kind == "chatter":
@@ -72,7 +80,8 @@ def scenario(rng, kind):
             s.loop.call_later(period, chat)
         if not kind.startswith("gate"):
             net.s2c = s2c
-        n_calls = rng.choice([1, 2, 3, 5, 8])
+        n_calls = rng.choice([1, 2, 3, 5, 8]) if kind != "active-lossy" else 1
+        live = consts()          # the table in force while the calls run
         if kind in ("gate", "gate-active"):
             # the spa stops answering: after 2 x ping frequency the freshness gate closes
             from geckolib.config import GeckoConfig, set_config_mode
@@ -104,7 +113,7 @@ def scenario(rng, kind):
         sc._stop_chat = True
         pending = [t.get_name() for t in sc.tasks if not t.done()]
         ev = merge(sc)
-        return {"ev": ev, "kind": kind, "pending": pending, "ncalls": n_calls}
+        return {"ev": ev, "kind": kind, "pending": pending, "ncalls": n_calls, "consts": live}
     finally:
         for t in sc.tasks:
             if not t.done():
@@ -133,12 +142,18 @@ def run(ctx):
     logs = []
     n = 24 if ctx.quick else 400
     for i in range(n):
-        kind = "gate" if i % 8 == 7 else "gate-active" if i % 8 == 3 else "chatter" if i % 8 == 5 else "stall" if i % 8 == 1 else "calls"
+        kind = "gate" if i % 8 == 7 else "gate-active" if i % 8 == 3 else "chatter" if i % 8 == 5 else "stall" if i % 8 == 1 else "active-lossy" if i % 8 == 6 else "calls"
         logs.append(scenario(rng, kind))
-    c = consts()
-    verdicts, _ = tlc.validate("AsyncEngine_Trace", logs, "c06", CFG.format(**c), chunk=6, heap="2g", jobs=12)
+    # logs are validated against the configuration that was in force while they ran
+    groups = {}
+    for lg in logs:
+        groups.setdefault(json.dumps(lg["consts"], sort_keys=True), []).append(lg)
+    pairs_ = []
+    for gi, (ck, group) in enumerate(sorted(groups.items())):
+        verdicts, _ = tlc.validate("AsyncEngine_Trace", group, f"c06-{gi}", CFG.format(**json.loads(ck)), chunk=6, heap="2g", jobs=12)
+        pairs_ += list(zip(group, verdicts))
     nontriv = set()
-    for lg, v in zip(logs, verdicts):
+    for lg, v in pairs_:
         if lg["pending"]:
             ctx.violation({"clause": "call-never-returned"}, {"pending": lg["pending"], "tail": lg["ev"][-12:]})
         key = tuple((e["k"], e.get("c"), e.get("verb"), e.get("result")) for e in lg["ev"] if e["k"] in ("call", "send", "ret"))
